@@ -38,7 +38,7 @@ fn walk_spans(v: &Value, text: &str, bad: &mut Vec<String>) {
     }
 }
 
-/// the tree without source positions and doc comments
+/// the tree without source positions; of doc comments only whether there are any
 fn strip(v: &Value) -> Value {
     match v {
         Value::Object(m) => {
@@ -48,7 +48,12 @@ fn strip(v: &Value) -> Value {
             }
             let mut out = serde_json::Map::new();
             for (k, x) in m {
-                if k == "span" || k == "docs" {
+                if k == "span" {
+                    continue;
+                }
+                if k == "docs" {
+                    // the text and the splitting of doc comments are layout; whether an item is documented is not
+                    out.insert("documented".into(), Value::Bool(x.as_array().map(|a| !a.is_empty()).unwrap_or(false)));
                     continue;
                 }
                 out.insert(k.clone(), strip(x));
@@ -191,7 +196,7 @@ fn main() {
         n += 1;
         let mut emit = |class: &str, what: String| {
             findings += 1;
-            writeln!(so, "{}", json!({"class": class, "what": what, "id": d["id"], "origin": d["origin"], "text": if text.len() > 600 { &text[..600] } else { &text[..] }, "key": d["key"], "kf": d["kf"]})).unwrap();
+            writeln!(so, "{}", json!({"class": class, "what": what, "id": d["id"], "origin": d["origin"], "text": if text.len() > 600 { let mut c = 600; while !text.is_char_boundary(c) { c -= 1; } &text[..c] } else { &text[..] }, "key": d["key"], "kf": d["kf"]})).unwrap();
         };
         let parsed = guarded(|| Document::parse(&text));
         let doc = match parsed {
@@ -217,6 +222,17 @@ fn main() {
                             emit("span", format!("diagnostic `{e}`: {b}"));
                         } else if let Some(cp) = d["cp"].as_str() {
                             covered |= text[l.offset()..l.offset() + l.len()].contains(cp);
+                        }
+                    }
+                }
+                // "found end of input": the label is the last character of the source (the lexer's documented
+                // stand-in for the end position, which the renderer cannot show), not some earlier character
+                if format!("{e}").contains("found end of input") && !text.is_empty() && d["origin"].as_str().map(|o| o.contains("cut right after the token")).unwrap_or(false) {
+                    let last = text.char_indices().last().map(|(i, _)| i).unwrap_or(0);
+                    if let Some(labels) = e.labels() {
+                        let ls: Vec<_> = labels.collect();
+                        if !ls.is_empty() && !ls.iter().any(|l| l.offset() == last && l.offset() + l.len() == text.len()) {
+                            emit("span", format!("diagnostic `{e}`: the end-of-input label is {}+{}, the last character of the source is at {last}", ls[0].offset(), ls[0].len()));
                         }
                     }
                 }
